@@ -625,12 +625,6 @@ Proof.
       + apply String.eqb_eq in E; subst. apply sfind_sput_same.
       + apply String.eqb_neq in E. apply sfind_sput_other. assumption. }
   destruct mp as [m1 prev]. cbn [fst snd] in Hmp. destruct Hmp as (Hc1 & Hn1 & Hprev & Hst1).
-  set (m2 := mkM (m_streams m1) (sput c (now_s m1 + Z.to_N (po_ttl o))%N (m_expires m1)) (m_removes m1) (m_cache m1) (m_now m1)).
-  set (m3 := set_removes cfg m2 c (po_meta_ttl o)).
-  assert (Hst3 : m_streams m3 = m_streams m1) by (unfold m3; rewrite set_removes_streams; reflexivity).
-  assert (Hc3 : m_cache m3 = m_cache m) by (unfold m3; rewrite set_removes_cache; exact Hc1).
-  assert (Hn3 : m_now m3 = m_now m) by (unfold m3; rewrite set_removes_now; exact Hn1).
-  rewrite Hst3.
   pose proof (Hst1 c) as Hsc. rewrite String.eqb_refl, andb_true_r in Hsc.
   (* the skip decision only depends on the existing stream *)
   assert (Hskip : (if (0 <? po_version o)%N
@@ -650,8 +644,8 @@ Proof.
       replace (po_version o <=? 0)%N with false by (symmetry; apply N.leb_gt; lia). rewrite andb_false_r. reflexivity. }
   fold (s1_of m c nonce). rewrite Hskip.
   destruct ((0 <? po_version o)%N && mem_skip _ _ _ _)%bool eqn:Esk.
-  - exists m3. split; [assumption|]. split; [assumption|]. split; [reflexivity|].
-    intros ch. rewrite Hst3, Hst1.
+  - exists m1. split; [assumption|]. split; [assumption|]. split; [reflexivity|].
+    intros ch. rewrite Hst1.
     (* skipping implies the stream existed *)
     assert (Hex : sfind c (m_streams m) = Some (s1_of m c nonce)).
     { unfold s1_of in *. destruct (sfind c (m_streams m)) as [s|]; [reflexivity|].
@@ -660,7 +654,13 @@ Proof.
     destruct (String.eqb ch c) eqn:E.
     + apply String.eqb_eq in E. subst. rewrite andb_true_r. destruct (po_delta o); [reflexivity|assumption].
     + rewrite andb_false_r. reflexivity.
-  - assert (Hs1 : match sfind c (m_streams m1) with Some s => s | None => stream_new nonce end = s1_of m c nonce).
+  - set (m2 := mkM (m_streams m1) (sput c (now_s m1 + Z.to_N (po_ttl o))%N (m_expires m1)) (m_removes m1) (m_cache m1) (m_now m1)).
+    set (m3 := set_removes cfg m2 c (po_meta_ttl o)).
+    assert (Hst3 : m_streams m3 = m_streams m1) by (unfold m3; rewrite set_removes_streams; reflexivity).
+    assert (Hc3 : m_cache m3 = m_cache m) by (unfold m3; rewrite set_removes_cache; exact Hc1).
+    assert (Hn3 : m_now m3 = m_now m) by (unfold m3; rewrite set_removes_now; exact Hn1).
+    rewrite Hst3.
+    assert (Hs1 : match sfind c (m_streams m1) with Some s => s | None => stream_new nonce end = s1_of m c nonce).
     { rewrite Hsc. unfold s1_of. destruct (po_delta o); [reflexivity|]. destruct (sfind c (m_streams m)); reflexivity. }
     rewrite Hs1.
     destruct (stream_add (s1_of m c nonce) data (po_size o) (po_version o) (po_vepoch o)) as [s' off] eqn:Eadd.
